@@ -234,6 +234,8 @@ pub fn gen_c07(o: &mut Out, tier: &str, seed: u64) {
         }
     }
     gen_sequences(o, &mut r, &["zero", "pubkey", "ctct", "ctcmt", "val2", "val3", "bval2", "bval3", "cap"], true);
+    // an accepted instruction followed by more bytes (or cut short) is not that instruction: the raw-byte decoder
+    crate::gen::ix_data_lengths(o, &mut r);
     // canonical decoding of every scalar field: the accepted instance with the group order added to one scalar that is
     // below 2^248 (encoding just above the order, top byte 0x10)
     {
